@@ -234,6 +234,8 @@ def generate(seed, tier):
                 "optobjs": optobjs,
                 # asserts stripped (python -O): judged only for sources that are accepted with asserts on
                 "pyopt": rng.random() < 0.12,
+                # simulated clock: seconds that pass per reading of any clock in this process
+                "clock_step": rng.choice([None, 0.000001, 0.01, 0.7, 30.0]),
                 # environment variables nobody thinks about
                 "envnoise": rng.choice([{}, {}, {"COLUMNS": "40", "LINES": "10"}, {"COLUMNS": "200"}, {"TERM": "dumb", "TZ": "Asia/Tokyo"},
                                         {"LC_ALL": "C", "COLUMNS": "72"}, {"NO_COLOR": "1", "TERM": "xterm-256color"}]),
@@ -367,12 +369,15 @@ def _execute(sc, root, want_texts):
             "texts": bool(want_texts),
             "precreate": pr.get("precreate", 0),
             "optobjs": pr.get("optobjs", []),
+            "clock_step": pr.get("clock_step"),
         }
         xenv = dict(pr.get("envnoise") or {})
         if pr.get("pyopt"):
             xenv["PYTHONOPTIMIZE"] = "1"
         if pr.get("envnoise"):
             bump("processes_with_other_environment_variables")
+        if pr.get("clock_step") is not None:
+            bump("processes_with_a_simulated_clock")
         res, err = run_proc(pdir, plan, pr["hs"], extra_env=xenv or None)
         bump("processes")
         bump("cache_" + pr["cache"])
